@@ -387,6 +387,7 @@ struct Store {
 };
 
 static Store g_store;
+static FILE* g_dump;
 
 static std::vector<Op> path_to(uint32_t i) {
     std::vector<Op> p;
@@ -468,6 +469,14 @@ static void parked_closure(const State& s0, int n, uint32_t idx0) {
             }
             bool blk = would_block(t, n);
             if (o.notified && !blk) { ++g_c03.wakeups; continue; } // writer woke and proceeds: done
+            if (!blk) {
+                // the request became grantable but this operation did not notify: the readers may legitimately pause
+                // right here for as long as they like (a sink waiting for frames to age), so the writer sleeps on although
+                // enough has been consumed
+                record("C03", "lost-wakeup", "a reader operation released enough space for the sleeping writer's request without notifying it",
+                       path_str(path_to(idx0)) + ",[writer sleeps in wmap(" + std::to_string(n) + ")]," + path_str(p));
+                continue;
+            }
             State c = t; canon(c); encode(c, kb);
             std::string key((char*)kb, KEYLEN);
             if (seen.insert(key).second) { st.push_back(t); paths.push_back(p); ++g_c03.closure_states; }
@@ -497,7 +506,7 @@ static std::string json_escape(const std::string& s) {
 }
 
 int main(int argc, char** argv) {
-    std::string out_path, replay;
+    std::string out_path, replay, dump_blocked;
     for (int i = 1; i < argc; ++i) {
         std::string a = argv[i];
         auto next = [&]() -> std::string { if (i + 1 >= argc) { fprintf(stderr, "missing value for %s\n", a.c_str()); exit(2); } return argv[++i]; };
@@ -510,6 +519,7 @@ int main(int argc, char** argv) {
         else if (a == "--out") out_path = next();
         else if (a == "--replay") replay = next();
         else if (a == "--samples") NSAMPLES = atoi(next().c_str());
+        else if (a == "--dump-blocked") dump_blocked = next();
         else { fprintf(stderr, "unknown argument %s\n", a.c_str()); return 2; }
     }
     if (CAP < 2 || CAP > MAXCAP || NR < 1 || NR > MAXR) { fprintf(stderr, "bad --cap/--readers\n"); return 2; }
@@ -542,6 +552,7 @@ int main(int argc, char** argv) {
         return rc;
     }
 
+    if (!dump_blocked.empty()) g_dump = fopen(dump_blocked.c_str(), "w");
     g_store.init(1u << 20);
     bool fresh;
     g_store.insert(kb, 0, { 0, 0, 0 }, fresh);
@@ -560,7 +571,14 @@ int main(int argc, char** argv) {
         if (do_c03) {
             if (!s.wn) {
                 for (int n = 1; n < CAP; ++n)
-                    if (would_block(s, n)) parked_closure(s, n, (uint32_t)qi);
+                    if (would_block(s, n)) {
+                        parked_closure(s, n, (uint32_t)qi);
+                        if (g_dump) { // one line per blocked case for the thread-level check: n, then the raw struct fields
+                            fprintf(g_dump, "%d %d %d %zu %zu %zu %zu %d %u", CAP, NR, n, s.ch.head, s.ch.high, s.ch.cycle, s.ch.mapped, (int)s.ch.is_accepting_writes, s.ch.holds.n);
+                            for (int r = 0; r < NR; ++r) fprintf(g_dump, " %zu %zu %u %zu %zu %d %d %d", s.ch.holds.pos[r], s.ch.holds.cycles[r], s.rd[r].id, s.rd[r].pos, s.rd[r].cycle, (int)s.rd[r].status, (int)s.rd[r].state, (int)s.joined[r]);
+                            fprintf(g_dump, "\n");
+                        }
+                    }
             }
             // drain bound
             for (int r = 0; r < NR; ++r) {
@@ -620,6 +638,7 @@ int main(int argc, char** argv) {
     if (samples.empty() && g_store.n > 3) samples.push_back(path_str(path_to((uint32_t)g_store.n - 1)));
     double wall = std::chrono::duration<double>(std::chrono::steady_clock::now() - t0).count();
 
+    if (g_dump) fclose(g_dump);
     FILE* f = out_path.empty() ? stdout : fopen(out_path.c_str(), "w");
     if (!f) { perror("out"); return 2; }
     fprintf(f, "{\"prop\":\"%s\",\"cap\":%d,\"readers\":%d,\"accept_toggle\":%s,\"kset\":\"%s\",", PROP.c_str(), CAP, NR, USE_ACCEPT ? "true" : "false", KSET_FULL ? "full" : "ends");
